@@ -1,7 +1,7 @@
 # Native witness for C08 (stale worker answer after a timeout): the worker answers 'slow' while the parent is about to kill it;
 # on the defective code recording 'b' then receives the comparison computed for 'slow'.  exit 0: property holds, exit 1: violated.
 import sys, time
-sys.path.insert(0, '/repo') if '/repo' not in sys.path else None
+sys.path.insert(0, __import__('os').environ.get('PYVC_REPO', '/repo'))
 from playback.studio.equalizer import Equalizer, CompareExecutionConfig, ComparatorResult, EqualityStatus
 
 
